@@ -26,6 +26,8 @@
 (*                       an emit in between overtakes the buffered ones    *)
 (*   "FlushAbort"        emitBuffered returns before flushing              *)
 (*   "OffByOne"          gives up after Limit + 1 failures                 *)
+(*   "EarlyCloseLost"    a close reported between Dial returning and the   *)
+(*                       state write is overwritten by "connected"         *)
 (***************************************************************************)
 EXTENDS Naturals, Sequences, FiniteSets, TLC
 
@@ -125,6 +127,8 @@ LinkUp ==   /\ link = "down" /\ link' = "up"
 \* Manager.onClose for the current connection (only while its callbacks are active)
 OnClose(kicked) ==
     /\ conn.alive /\ (link = "down" \/ kicked)
+    \* a close reported while connect has not recorded the connection yet is kept until it has
+    /\ (act.pc # "dialed" \/ "EarlyCloseLost" \in Dev)
     /\ conn' = [conn EXCEPT !.alive = FALSE, !.active = FALSE, !.joined = FALSE]
     /\ inflight' = <<>> /\ reply' = FALSE                 \* whatever was on the wire is gone
     /\ excused' = IF kicked THEN excused ELSE excused \cup (Range(inflight) \ {CONN})
@@ -165,7 +169,7 @@ DialFail == /\ act.pc = "dial" /\ link = "down"
             /\ mstate' = "disconnected"
             /\ IF act.kind = "open"
                  THEN Release /\ post' = post + 1 /\ UNCHANGED fails
-                 ELSE Goto("failed") /\ fails' = fails + 1 /\ UNCHANGED post
+                 ELSE Goto("failed") /\ fails' = (IF fails <= Cap THEN fails + 1 ELSE fails) /\ UNCHANGED post   \* (saturates: model bound)
             /\ UNCHANGED <<link, outages, attempts, skip, waiting, conn, sstate, sactive, flushing, inflight, reply, sendBuf, delivered, nextEv, class, connects, failed, closes, closed, excused>>
 \* after Dial returned: state, then the open handlers (each active socket sends its CONNECT)
 SetConnected ==
